@@ -22,7 +22,7 @@ RULE = (
     "exhaustive tier: all permutations of distinct sort values x all failure masks x all windows 0<=first<=last<n "
     "for n<=5 (quick) / n<=6 (thorough), sort-objective and sort-constraint, non-uniform configured weights; "
     "hypothesis tier: n<=12, configured weights with zeros, ties, weighted multi-objective keys, 2-3 filters "
-    "mapped (with -1 entries) onto 1-3 objectives and 0-3 constraints through EnsembleEvaluator, invalid windows. "
+    "mapped (with -1 entries) onto 1-3 objectives and 0-3 constraints through EnsembleEvaluator, invalid windows; the method name written plain, plug-in qualified and in other case. "
     "Oracle: tie-robust validity predicate on the selected set + exact weights. "
     "Non-trivial: >=2 successes and the window is a proper subset of the successful ranks "
     "(or, for map cases, >=2 filters mapped to different functions)."
@@ -37,8 +37,25 @@ _MANAGER = PluginManager()
 
 
 # ----------------------------------------------------------------------------
-def make_sort_config(n: int, flavour: str, first: int, last: int, weights: list[float],
-                     obj_weights: list[float] | None = None, sort: list[int] | None = None) -> dict[str, Any]:
+SPELLINGS = ("plain", "qualified", "upper", "qualified-mixed")
+
+
+def spell(method: str, style: str | None) -> str:
+    """The same method under the spellings a configuration may use (plug-in qualified, any case)."""
+    return {"plain": method, "qualified": "default/" + method, "upper": method.upper(),
+            "qualified-mixed": "Default/" + method.title()}[style or "plain"]
+
+
+def make_sort_config(n: int, flavour: str, first: int, last: int, weights: list[float],  # noqa: PLR0913
+                     obj_weights: list[float] | None = None, sort: list[int] | None = None, spelling: str | None = None) -> dict[str, Any]:
+    config = _make_sort_config(n, flavour, first, last, weights, obj_weights, sort)
+    for flt in config["realization_filters"]:
+        flt["method"] = spell(flt["method"], spelling)
+    return config
+
+
+def _make_sort_config(n: int, flavour: str, first: int, last: int, weights: list[float],  # noqa: PLR0913
+                      obj_weights: list[float] | None = None, sort: list[int] | None = None) -> dict[str, Any]:
     config: dict[str, Any] = {
         "variables": {"initial_values": [0.0]},
         "realizations": {"weights": weights, "realization_min_success": 0},
@@ -128,7 +145,7 @@ def run_direct(case: dict[str, Any], flt: Any = None, cfg: EnOptConfig | None = 
     values = np.array(case["values"], dtype=np.float64).reshape(n, -1)
     if flt is None or cfg is None:
         cfg = EnOptConfig.model_validate(
-            make_sort_config(n, flavour, case["first"], case["last"], case["weights"], case.get("obj_weights"), case.get("sort"))
+            make_sort_config(n, flavour, case["first"], case["last"], case["weights"], case.get("obj_weights"), case.get("sort"), case.get("spelling"))
         )
         flt = _MANAGER.get_plugin("realization_filter", cfg.realization_filters[0].method).create(cfg, 0)
     configured = np.asarray(cfg.realizations.weights)
@@ -151,8 +168,16 @@ def exhaustive_shard(item: dict[str, Any]) -> Collector:
     cfg_w = [float(i + 1) for i in range(n)]
     windows = [(f, l) for f in range(n) for l in range(f, n)]
     masks = list(itertools.product([False, True], repeat=n))
-    for first, last in windows[item["part"]:: item["parts"]]:
-        cfg = EnOptConfig.model_validate(make_sort_config(n, flavour, first, last, cfg_w))
+    if item["part"] == 0:  # windows outside the ensemble, under every spelling of the method name
+        for first, last, spelling in itertools.product(range(n + 2), range(n + 2), SPELLINGS):
+            if 0 <= first <= last < n:
+                continue
+            case = {"kind": "invalid", "n": n, "flavour": flavour, "first": first, "last": last, "spelling": spelling}
+            guard_call(col, case, lambda: run_invalid_window(case))  # noqa: B023
+            col.case((n, flavour, first, last, spelling, "invalid"), nontrivial=False, classes=(flavour, "invalid-window", f"spelling={spelling}"), sample=case)
+    for w_i, (first, last) in enumerate(windows[item["part"]:: item["parts"]]):
+        spelling = SPELLINGS[w_i % len(SPELLINGS)]
+        cfg = EnOptConfig.model_validate(make_sort_config(n, flavour, first, last, cfg_w, spelling=spelling))
         flt = _MANAGER.get_plugin("realization_filter", cfg.realization_filters[0].method).create(cfg, 0)
         for mask in masks:
             failed = np.array(mask, dtype=bool)
@@ -163,7 +188,7 @@ def exhaustive_shard(item: dict[str, Any]) -> Collector:
                 if m:
                     values[~failed] = base[list(perm)]
                 case = {"kind": "direct", "n": n, "flavour": flavour, "failed": list(mask), "values": values.tolist(),
-                        "first": first, "last": last, "weights": cfg_w}
+                        "first": first, "last": last, "weights": cfg_w, "spelling": spelling}
                 guard_call(col, case, lambda: run_direct(case, flt, cfg))  # noqa: B023
                 proper = m >= 2 and not (first == 0 and last >= m - 1)  # noqa: PLR2004
                 col.case((n, flavour, first, last, mask, perm), nontrivial=proper,
@@ -183,7 +208,7 @@ def run_invalid_window(case: dict[str, Any]) -> None:
 
     n = case["n"]
     try:
-        cfg = EnOptConfig.model_validate(make_sort_config(n, case["flavour"], case["first"], case["last"], [1.0] * n))
+        cfg = EnOptConfig.model_validate(make_sort_config(n, case["flavour"], case["first"], case["last"], [1.0] * n, spelling=case.get("spelling")))
         EnsembleEvaluator(cfg, None, evaluator, _MANAGER)
     except ConfigError:
         check(not calls, "invalid-window-evaluated", "evaluator was called before the window was rejected", case)
@@ -198,7 +223,7 @@ def run_invalid_window(case: dict[str, Any]) -> None:
 def ref_filter_weights(spec: dict[str, Any], objectives: np.ndarray, constraints: np.ndarray | None,
                        failed: np.ndarray, configured: np.ndarray, obj_w: np.ndarray) -> np.ndarray | None:
     """Reference weights for a sort filter when its keys are distinct; None when tied or aborting."""
-    if spec["method"] == "sort-objective":
+    if spec["method"].lower().endswith("sort-objective"):
         keys = exact_key(objectives, spec["options"]["sort"], obj_w)
     else:
         assert constraints is not None
@@ -287,7 +312,7 @@ def hypothesis_shard(item: dict[str, Any]) -> Collector:
                 first = draw(st.integers(0, n - 1)); last = n + draw(st.integers(0, 3))  # noqa: E702
             else:
                 first = n + draw(st.integers(0, 2)); last = first + draw(st.integers(0, 2))  # noqa: E702
-            return {"kind": kind, "n": n, "flavour": flavour, "first": first, "last": last}
+            return {"kind": kind, "n": n, "flavour": flavour, "first": first, "last": last, "spelling": draw(st.sampled_from(SPELLINGS))}
         failed = draw(st.lists(st.booleans(), min_size=n, max_size=n))
         weights = [draw(st.sampled_from([0.0, 1.0, 1.0, 2.0, 0.5])) for _ in range(n)]
         if sum(weights) == 0:
@@ -296,7 +321,7 @@ def hypothesis_shard(item: dict[str, Any]) -> Collector:
             flavour = draw(st.sampled_from(["objective", "constraint"]))
             first = draw(st.integers(0, n - 1)); last = draw(st.integers(first, n - 1))  # noqa: E702
             case: dict[str, Any] = {"kind": kind, "n": n, "flavour": flavour, "failed": failed, "first": first,
-                                    "last": last, "weights": weights}
+                                    "last": last, "weights": weights, "spelling": draw(st.sampled_from(SPELLINGS))}
             if flavour == "objective" and draw(st.booleans()):
                 k_n = draw(st.integers(2, 3))
                 case["obj_weights"] = [draw(st.sampled_from([0.5, 1.0, 2.0])) for _ in range(k_n)]
@@ -316,10 +341,11 @@ def hypothesis_shard(item: dict[str, Any]) -> Collector:
         for _ in range(f_n):
             first = draw(st.integers(0, n - 1)); last = draw(st.integers(first, n - 1))  # noqa: E702
             if c_n and draw(st.booleans()):
-                filters.append({"method": "sort-constraint", "options": {"sort": draw(st.integers(0, c_n - 1)), "first": first, "last": last}})
+                filters.append({"method": spell("sort-constraint", draw(st.sampled_from(SPELLINGS))),
+                                "options": {"sort": draw(st.integers(0, c_n - 1)), "first": first, "last": last}})
             else:
                 srt = sorted(draw(st.sets(st.integers(0, k_n - 1), min_size=1)))
-                filters.append({"method": "sort-objective", "options": {"sort": srt, "first": first, "last": last}})
+                filters.append({"method": spell("sort-objective", draw(st.sampled_from(SPELLINGS))), "options": {"sort": srt, "first": first, "last": last}})
         return {"kind": kind, "n": n, "k": k_n, "c": c_n, "failed": failed, "weights": weights,
                 "obj_weights": [draw(st.sampled_from([0.5, 1.0, 2.0])) for _ in range(k_n)],
                 "objectives": [[draw(value) for _ in range(k_n)] for _ in range(n)],
